@@ -215,7 +215,10 @@ class Canvas:
                 return ETuple([EVar(iter_rank.lower())
                                for iter_rank in iter_ranks])
 
-            if len(iter_ranks) > 1:
+            # The coordinates of every partition of a flattened rank are
+            # tuples, which cannot be subtracted from each other
+            flattened = self.program.get_partitioning().is_flattened(rank)
+            if len(iter_ranks) > 1 or flattened:
                 raise ValueError(
                     "Cannot display the relative coordinate of flattened rank " +
                     rank)
